@@ -343,6 +343,14 @@ func runAllRules(repo, verif string) (code int) {
 	sort.Strings(ids)
 	r := newReport()
 	seen := map[uintptr]bool{}
+	propsOfFn := map[uintptr][]string{}
+	for _, id := range ids {
+		for _, f := range properties[id].Rules {
+			ptr := reflect.ValueOf(f).Pointer()
+			propsOfFn[ptr] = append(propsOfFn[ptr], id)
+		}
+	}
+	propsOfRule := map[string][]string{}
 	for _, id := range ids {
 		for _, f := range properties[id].Rules {
 			ptr := reflect.ValueOf(f).Pointer()
@@ -350,7 +358,11 @@ func runAllRules(repo, verif string) (code int) {
 				continue
 			}
 			seen[ptr] = true
+			before := len(r.order)
 			f(w, r)
+			for _, rid := range r.order[before:] {
+				propsOfRule[rid] = propsOfFn[ptr]
+			}
 		}
 	}
 	r.finish()
@@ -371,7 +383,7 @@ func runAllRules(repo, verif string) (code int) {
 		if ob.status == Undecided {
 			st = "undecided"
 		}
-		fmt.Printf("%s %s  %s  [%s] %s\n", st, ob.Rule, ob.Construct, ob.Pos, ob.Detail)
+		fmt.Printf("%s %s  %s  [%s] props=%s %s\n", st, ob.Rule, ob.Construct, ob.Pos, strings.Join(propsOfRule[ob.Rule], ","), ob.Detail)
 	}
 	fmt.Printf("all-rules obligations=%d reports=%d rules=%d\n", len(r.Obs), n, len(seen))
 	if n > 0 {
